@@ -1889,6 +1889,10 @@ class Cluster(object):
         if self.is_shutdown:
             return
 
+        if self.metadata.get_host(host.endpoint) is None:
+            log.debug("Ignoring up status of node %s: it is no longer part of the cluster", host)
+            return
+
         log.debug("Waiting to acquire lock for handling up status of node %s", host)
         with host.lock:
             if host._currently_handling_node_up:
@@ -1956,6 +1960,10 @@ class Cluster(object):
 
     def _start_reconnector(self, host, is_host_addition):
         if self.profile_manager.distance(host) == HostDistance.IGNORED:
+            return
+
+        if self.metadata.get_host(host.endpoint) is None:
+            # removed while it was being marked down: a removed host is never reconnected
             return
 
         schedule = self.reconnection_policy.new_schedule()
